@@ -160,13 +160,7 @@ PlaceConforms(pre, e) ==
                            ELSE TRUE
     ELSE TRUE
 
-\* groups that share one working copy of the traded ladder
-MatchGroups(pre, mid, iso) ==
-    IF iso THEN {{o \in DOMAIN pre.ord : pre.ord[o].mid = mid /\ pre.ord[o].inbl /\ pre.ord[o].strat = sn
-                                          /\ pre.ord[o].status \in MatchSt} :
-                   sn \in {pre.ord[x].strat : x \in {y \in DOMAIN pre.ord : pre.ord[y].mid = mid}}}
-    ELSE {{o \in DOMAIN pre.ord : pre.ord[o].mid = mid /\ pre.ord[o].inbl /\ pre.ord[o].live
-                                   /\ pre.ord[o].status \in MatchSt}}
+MatchGroups(pre, mid, iso) == GroupsOf(pre.ord, mid, iso)
 
 TouchedByRemoval(pre, e, o) ==
     e.a.newly_removed # <<>> /\
